@@ -9,33 +9,67 @@
 namespace geodlat {
 
 // ---------------------------------------------------------------- direct problem (C01, C03)
-inline std::vector<double> direct_lats() {
-  return {-90, -90 + 1e-9, -60, -1 / 32.0, -1e-20, -0.0, 0.0, std::nextafter(1 / 16.0, 0.0), 1 / 16.0, 30, 45, 89.9, 90};
+// T = thorough tier.  The quick lists are prefixes of the thorough ones (quick is a sub-lattice).
+inline std::vector<double> direct_lats(bool T = false) {
+  std::vector<double> v = {-90, -90 + 1e-9, -60, -1 / 32.0, -1e-20, -0.0, 0.0, std::nextafter(1 / 16.0, 0.0), 1 / 16.0, 30, 45, 89.9, 90};
+  // thorough: both sides of the AngRound threshold on the other hemisphere, the cbet1 < -sbet1 switch at 45, tiny_ side of the poles
+  if (T) for (double x : {-89.9, -45.0, -1 / 16.0, 1e-9, std::nextafter(1 / 16.0, 1.0), 60.0, 89.9999999, 90 - 1e-13}) v.push_back(x);
+  return v;
 }
-inline std::vector<double> direct_azis() { return {0.0, -0.0, 1e-17, 1 / 32.0, 30, 45, 90 - 1e-12, 90, 135, 180, -180, 270, 10000}; }
+inline std::vector<double> direct_azis(bool T = false) {
+  std::vector<double> v = {0.0, -0.0, 1e-17, 1 / 32.0, 30, 45, 90 - 1e-12, 90, 135, 180, -180, 270, 10000};
+  // thorough: AngRound threshold 1/16, the other side of 90 and 180, all quadrants, a large negative multiple turn
+  if (T) for (double x : {-1 / 32.0, 1 / 16.0, 60.0, 90 + 1e-12, 120.0, 180 - 1e-10, -135.0, -7245.5}) v.push_back(x);
+  return v;
+}
 inline std::vector<double> direct_lons() { return {0, 179.5, -180, 540}; }
 struct LSpec { bool arc; double v; bool quick; };          // distances in units of the quarter meridian, arcs in degrees
-inline std::vector<LSpec> direct_lengths() {
-  return {
+inline std::vector<LSpec> direct_lengths(bool T = false) {
+  std::vector<LSpec> v = {
     {false, 0, true}, {false, 1e-10, true}, {false, -1e-10, false}, {false, 1e-4, false}, {false, -1e-4, true},
     {false, 0.5, false}, {false, -0.5, true}, {false, 1, true}, {false, -1, false}, {false, 2, false}, {false, -2, true},
     {false, 2 * (1 + 5e-8), true}, {false, -2 * (1 + 5e-8), false}, {false, 8, true}, {false, -8, false}, {false, 29.2, false}, {false, -29.2, true},
     {true, 0, false}, {true, 1e-9, true}, {true, -1e-9, false}, {true, 30, false}, {true, -30, true}, {true, 90, true}, {true, -90, false},
     {true, 180, true}, {true, -180, false}, {true, 360, false}, {true, -360, true}, {true, 720.5, true}, {true, -720.5, false}};
+  if (T) {
+    // second level: 1e-7 Q (1 m), the half-way points of the first level, one full circuit and just beyond, 16.5 Q;
+    // arcs on both sides of 90 and 180 (cbet2 == 0 / csig12 <= 0 switches), 270, 540, 1 arc second
+    for (double x : {1e-7, 0.01, 0.25, 1.5, 3.0, 4.0, 4 * (1 + 1e-9), 16.5}) { v.push_back({false, x, false}); v.push_back({false, -x, false}); }
+    for (double x : {1 / 3600.0, 45.0, 90 - 1e-7, 90 + 1e-7, 180 - 1e-7, 180 + 1e-7, 270.0, 540.0}) { v.push_back({true, x, false}); v.push_back({true, -x, false}); }
+  }
+  return v;
 }
-inline const char* direct_lat_text() { return "{-90,-90+1e-9,-60,-1/32,-1e-20,-0,+0,1/16-ulp,1/16,30,45,89.9,90} (13)"; }
-inline const char* direct_azi_text() { return "{0,-0,1e-17,1/32,30,45,90-1e-12,90,135,180,-180,270,10000} (13)"; }
+inline const char* direct_lat_text(bool T = false) {
+  return T ? "{-90,-90+1e-9,-60,-1/32,-1e-20,-0,+0,1/16-ulp,1/16,30,45,89.9,90} + {-89.9,-45,-1/16,1e-9,1/16+ulp,60,89.9999999,90-1e-13} (21)"
+           : "{-90,-90+1e-9,-60,-1/32,-1e-20,-0,+0,1/16-ulp,1/16,30,45,89.9,90} (13)";
+}
+inline const char* direct_azi_text(bool T = false) {
+  return T ? "{0,-0,1e-17,1/32,30,45,90-1e-12,90,135,180,-180,270,10000} + {-1/32,1/16,60,90+1e-12,120,180-1e-10,-135,-7245.5} (21)"
+           : "{0,-0,1e-17,1/32,30,45,90-1e-12,90,135,180,-180,270,10000} (13)";
+}
 inline const char* direct_len_text(bool T) {
-  return T ? "s12/Q in {0,+-1e-10,+-1e-4,+-0.5,+-1,+-2,+-2(1+5e-8),+-8,+-29.2} (17), a12 in {0,+-1e-9,+-30,+-90,+-180,+-360,+-720.5} deg (13)"
+  return T ? "s12/Q in {0,+-1e-10,+-1e-7,+-1e-4,+-0.01,+-0.25,+-0.5,+-1,+-1.5,+-2,+-2(1+5e-8),+-3,+-4,+-4(1+1e-9),+-8,+-16.5,+-29.2} (33), a12 in {0,+-1e-9,+-1/3600,+-30,+-45,+-90-1e-7,+-90,+-90+1e-7,+-180-1e-7,+-180,+-180+1e-7,+-270,+-360,+-540,+-720.5} deg (29)"
            : "s12/Q in {0,1e-10,-1e-4,-0.5,1,-2,2(1+5e-8),8,-29.2} (9), a12 in {1e-9,-30,90,180,-360,720.5} deg (6)";
+}
+inline const char* ellipsoid_text(bool T) {
+  return T ? "all 33: a=6378137 f in {0,+-1/298.257223563,+-0.005,+-1/150,+-0.01,+-0.02,+-0.05,+-0.1,+-0.15,+-0.2}; (a=1,f=1/150); (a=1e9,f=-1/150); b/a in {1/32,1/16,1/8,1/4,1/2,0.99,1.01,2,4,8,16,32} with quarter meridian 1e7 m"
+           : "8: wgs84, f=+-0.02, f=+-0.1 (a=6378137); b/a in {1/2, 2, 1/16} with quarter meridian 1e7 m";
 }
 
 // ---------------------------------------------------------------- inverse problem (C02, C03)
 struct Pt { double lat, lon; };
 struct Pair { double lat1, lon1, lat2, lon2; char fam; };   // fam: g grid, a astroid, s short, e equatorial
 
-inline std::vector<double> grid_lats() { return {-90, -89.9999, -45, -1 / 32.0, 0, 30, 45.5, 89.999999, 90}; }
-inline std::vector<double> grid_lons() { return {0, 1e-12, 1, 90, 179, 179.5, 179.99, 180 - 1e-9, 180, -180, 181, 360.5}; }
+inline std::vector<double> grid_lats(bool T = false) {
+  std::vector<double> v = {-90, -89.9999, -45, -1 / 32.0, 0, 30, 45.5, 89.999999, 90};
+  if (T) for (double x : {-60.0, -1 / 16.0, -1e-12, 1 / 32.0, 45.0, 75.0}) v.push_back(x);
+  return v;
+}
+inline std::vector<double> grid_lons(bool T = false) {
+  std::vector<double> v = {0, 1e-12, 1, 90, 179, 179.5, 179.99, 180 - 1e-9, 180, -180, 181, 360.5};
+  if (T) for (double x : {-1e-12, 1 / 16.0, 28.0, 29.0, 135.0, 175.0, -179.999999, -90.0}) v.push_back(x);   // 28/29 deg: the lam12 < 0.5 rad short-line test
+  return v;
+}
 
 // antipodal neighbourhood of (lat1, 0): (x, y) in units of the astroid scales  f pi cos(beta1)  and  f pi cos^2(beta1)
 inline Pt astroid_point(const geodtab::Ell& E, double lat1, double x, double y) {
@@ -49,22 +83,36 @@ inline Pt astroid_point(const geodtab::Ell& E, double lat1, double x, double y) 
 
 inline std::vector<Pair> inverse_pairs(const geodtab::Ell& E, bool T) {
   std::vector<Pair> v;
-  // (a) + (e) generic grid from the anchor meridian lon1 = 0 (contains the meridional pairs lon12 in {0, 180, -180})
-  for (double la1 : grid_lats()) for (double la2 : grid_lats()) for (double lo2 : grid_lons()) v.push_back({la1, 0, la2, lo2, 'g'});
-  // (b) astroid grid
+  // (a) + (e) generic grid from the anchor meridian lon1 = 0 (contains the meridional pairs lon12 in {0, 180, -180});
+  //     thorough: denser alphabets and two further anchor meridians whose sums with the offsets are inexact in double
+  for (double lo1 : (T ? std::vector<double>{0, 100.1, -179.75} : std::vector<double>{0}))
+    for (double la1 : grid_lats(T)) for (double la2 : grid_lats(T)) for (double lo2 : grid_lons(T)) v.push_back({la1, lo1, la2, lo1 + lo2, 'g'});
+  // (b) astroid grid: quick 5x5, thorough 25x25 on [-2.5,0.5]x[-1.5,1.5] (contains the 5x5 grid), strip around x = -1
   const double eps = std::ldexp(1.0, -52), tol1 = 200 * eps, xthresh = 1000 * std::sqrt(eps);
   std::vector<double> xs, ys;
-  int n = T ? 9 : 5;
+  int n = T ? 25 : 5;
   for (int i = 0; i < n; ++i) { xs.push_back(-2.5 + 3.0 * i / (n - 1)); ys.push_back(-1.5 + 3.0 * i / (n - 1)); }
-  for (double la1 : {-0.5, -30.0, -60.0, -89.0}) {
+  std::vector<double> bases = {-0.5, -30.0, -60.0, -89.0};
+  if (T) for (double x : {-1e-9, -1 / 32.0, -10.0, -45.0, -75.0, -89.99}) bases.push_back(x);
+  std::vector<double> sx = {-1 - xthresh / 2, -1 + xthresh / 2};
+  if (T) for (double x : {-1 - 2 * xthresh, -1 - xthresh, -1.0, -1 + xthresh, -1 + 2 * xthresh, -0.5, -1e-3, 0.0}) sx.push_back(x);
+  std::vector<double> sy = {0.0, tol1 / 2, -tol1 / 2};
+  if (T) for (double y : {tol1, -tol1, 2 * tol1, -2 * tol1, 1e-8, -1e-8}) sy.push_back(y);
+  for (double la1 : bases) {
     for (double x : xs) for (double y : ys) { Pt p = astroid_point(E, la1, x, y); v.push_back({la1, 0, p.lat, p.lon, 'a'}); }
-    for (double x : {-1 - xthresh / 2, -1 + xthresh / 2}) for (double y : {0.0, tol1 / 2, -tol1 / 2}) { Pt p = astroid_point(E, la1, x, y); v.push_back({la1, 0, p.lat, p.lon, 'a'}); }
+    for (double x : sx) for (double y : sy) { Pt p = astroid_point(E, la1, x, y); v.push_back({la1, 0, p.lat, p.lon, 'a'}); }
   }
-  // (c) short lines: 8 compass offsets x separations from 5 bases
+  // (c) short lines: compass offsets x separations from the bases
   const double R = E.a;
-  for (Pt b : {Pt{0, 0}, Pt{30, 0}, Pt{-45.5, 100}, Pt{90 - 1e-7, 0}, Pt{-89.9, 179.9999}})
-    for (int k = 0; k < 8; ++k) for (double s : {0.0, 1e-9, 3e-8, 1e-7, 1e-6, 1e-3, 1.0, 1e3}) {
-      double th = k * M_PI / 4, c = std::cos(b.lat * M_PI / 180);
+  std::vector<Pt> sb = {Pt{0, 0}, Pt{30, 0}, Pt{-45.5, 100}, Pt{90 - 1e-7, 0}, Pt{-89.9, 179.9999}};
+  if (T) for (Pt b : {Pt{1 / 16.0, -180}, Pt{-1e-10, 179.9999999}, Pt{60, 359}, Pt{89.99, -120}, Pt{-90, 45}, Pt{45, 1e-9}}) sb.push_back(b);
+  std::vector<double> seps = {0.0, 1e-9, 3e-8, 1e-7, 1e-6, 1e-3, 1.0, 1e3};
+  if (T) for (double x : {3e-9, 1e-5, 0.03, 30.0, 2e4, 3e5}) seps.push_back(x);
+  const int nb = T ? 16 : 8;
+  for (Pt b : sb)
+    for (int k = 0; k < nb; ++k) for (double s : seps) {
+      // bearings: quick k*45 deg; thorough adds the odd multiples of 22.5 deg after them
+      double th = (k < 8 ? k * M_PI / 4 : (2 * (k - 8) + 1) * M_PI / 8), c = std::cos(b.lat * M_PI / 180);
       double dlat = s * std::cos(th) / R * 180 / M_PI, dlon = s * std::sin(th) / (R * (c > 1e-12 ? c : 1e-12)) * 180 / M_PI;
       double la2 = b.lat + dlat; if (la2 > 90) la2 = 90; if (la2 < -90) la2 = -90;
       v.push_back({b.lat, b.lon, la2, b.lon + dlon, 's'});
@@ -72,6 +120,12 @@ inline std::vector<Pair> inverse_pairs(const geodtab::Ell& E, bool T) {
   // (d) equatorial pairs around the end of the equatorial regime lon12 = (1-f) 180
   for (double d : {0.0, 1e-9, -1e-9, 1e-3, -1e-3}) v.push_back({0, 0, 0, (1 - E.f) * 180 + d, 'e'});
   v.push_back({0, 0, 0, 179.9, 'e'}); v.push_back({0, 0, 0, 180, 'e'}); v.push_back({-0.0, 0, 0.0, 179.5, 'e'});
+  if (T) {
+    for (double d : {1e-12, -1e-12, 1e-6, -1e-6, 1.0, -1.0}) v.push_back({0, 0, 0, (1 - E.f) * 180 + d, 'e'});
+    // nearly equatorial pairs around the same longitude (AngRound folds |lat| < ~1e-17 to 0; 1e-10 stays)
+    for (double la : {1e-10, -1e-10, 1e-3}) for (double d : {0.0, 1e-9, -1e-9, 1e-3}) { v.push_back({la, 0, la, (1 - E.f) * 180 + d, 'e'}); v.push_back({la, 0, -la, (1 - E.f) * 180 + d, 'e'}); }
+    for (double lo : {1e-9, 28.6, 28.7, 90.0, 135.0, 179.0, 179.999999}) v.push_back({0, 0, 0, lo, 'e'});
+  }
   return v;
 }
 
@@ -83,6 +137,12 @@ inline std::vector<Pt> metric_points(const geodtab::Ell& E, bool T) {
   for (int k = 0; k < 8; ++k) { double th = k * M_PI / 4; v.push_back({30 + std::cos(th) / E.a * 180 / M_PI, std::sin(th) / (E.a * std::cos(M_PI / 6)) * 180 / M_PI}); }
   v.push_back({0, (1 - E.f) * 180 - 1e-3}); v.push_back({0, (1 - E.f) * 180 + 1e-3});
   v.push_back({30, 360}); v.push_back({-45, -359});                          // coincident with (30,0) and (-45,1)
+  if (T) {                                                                   // second level (appended: the quick set is unchanged)
+    for (double la : {-60.0, -1e-9, 1 / 16.0, 75.0}) for (double lo : {0.0, 45.0, 135.0, 180.0, -90.0, -179.5}) v.push_back({la, lo});
+    for (double la1 : {-0.5, -89.0}) for (double x : {-2.0, -1.0, 0.0}) for (double y : {-1.0, 0.0, 1.0}) v.push_back(astroid_point(E, la1, x, y));
+    for (int k = 0; k < 8; ++k) { double th = k * M_PI / 4; v.push_back({-89.9999 + 1e-3 * std::cos(th) / E.a * 180 / M_PI, 1e-3 * std::sin(th) / (E.a * std::cos(89.9999 * M_PI / 180)) * 180 / M_PI}); }
+    v.push_back({90, 77}); v.push_back({-90, -13});                           // the poles once more, other longitudes
+  }
   if (!T) { std::vector<Pt> w; for (size_t i = 0; i < v.size(); i += 2) w.push_back(v[i]); w.push_back({30, 360}); return w; }
   return v;
 }
